@@ -174,6 +174,18 @@ def run(tier, seed):
         text = '\n'.join(['BEGIN:VCALENDAR', 'VERSION:2.0'] + lines_of(cal) + ['BEGIN:VEVENT'] + body + ['END:VEVENT', 'END:VCALENDAR', ''])
         k = rnd.choice([0, 0, 1, 2, 5, 30, 62, 63, 64, 65, 70, 127, 128, 130, 200])
         cases.append({'k': k, 'm': 20, 'text': text, 'first': rnd.random() < 0.5, 'ev': [{'n': a, 'v': enc(c)} for a, b, c in ev], 'cal': [{'n': a, 'v': enc(c)} for a, b, c in cal], 'sched': sd, 'special': special, 'long': long_})
+    # one fat task (long file names and command, every numeric field, a rule with BY lists and COUNT) written out with a DESCRIPTION of
+    # every length in a run of consecutive values: the written text crosses the writer's 4 KiB buffer at every alignment
+    for L in range(200, 720):
+        uid = 'sw%d' % L
+        ev = [('UID', None, uid), ('SUMMARY', None, '/usr/local/bin/job ' + 'a' * 700), ('LOCATION', None, '/srv/' + 'd' * 800), ('X-ECHS-OFILE', None, '/var/log/' + 'o' * 780),
+              ('X-ECHS-EFILE', None, '/var/log/' + 'e' * 790), ('X-ECHS-IFILE', None, '/srv/in/' + 'i' * 400), ('DESCRIPTION', None, 'x' * L),
+              ('X-ECHS-UMASK', '027', 0o27), ('X-ECHS-MAIL-RUN', '1', 1), ('X-ECHS-MAIL-OUT', '1', 1), ('X-ECHS-MAIL-ERR', '0', 0), ('X-ECHS-MAX-SIMUL', '3', 3)]
+        rt = 'FREQ=MONTHLY;BYMONTHDAY=1,5,10,15,20,25;BYHOUR=1,2,3;COUNT=40'
+        sl = ['DTSTART:20300101T010000Z', 'RRULE:' + rt]; sd = {'kind': 'rule', 'rtext': rt, 'tz': False, 'timed': True}
+        text = '\n'.join(['BEGIN:VCALENDAR', 'VERSION:2.0', 'BEGIN:VEVENT'] + sl + lines_of(ev) + ['END:VEVENT', 'END:VCALENDAR', ''])
+        cases.append({'k': rnd.choice([0, 0, 1, 5]), 'm': 45, 'text': text, 'first': True, 'ev': [{'n': a, 'v': enc(c)} for a, b, c in ev], 'cal': [], 'sched': sd, 'special': False, 'long': True})
+    n = len(cases)
     nsl = vlib.NCPU; per = -(-n // nsl)
     def sl_(j):
         part = cases[j * per:(j + 1) * per]
